@@ -5,6 +5,7 @@ import StepModel.ComplexSemHead
 import StepModel.ComplexForest3
 import StepModel.ComplexForestAgree
 import StepModel.ComplexInit
+import StepModel.ComplexAccept
 /-!
 # C08 — complex instances are accepted exactly when the supertype constraints allow them
 
@@ -94,6 +95,14 @@ theorem C08_no_crash (c : Collect) (mult parts : List Name) (hc : ∀ h ∈ c, h
 /-- the hypotheses are satisfiable: the emitted tree of the diamond example, request `{a, b, d}` with `d` flagged -/
 example : ∀ k, supports exDiamondTree' [3] [0, 1, 3] ≠ .crash k :=
   C08_no_crash _ _ _ (by decide) (by decide)
+
+/-- **Soundness, the part that is proved** (every collect, every request without multiply-inheriting members; excluded:
+requests with such members, where the combo list is matched instead): if the matcher accepts, some list of the collect has
+its supertype — the root of the hierarchy — among the parts and mentions every part.  The finer clauses (each member's
+ONEOF/AND/ANDOR rule, ABSTRACT) are the matcher ⟷ `evalB` link, which is tested, not proved. -/
+theorem C08_sound_root_partial (c : Collect) (parts : List Name) (h : supports c [] parts = .ok true) :
+    ∃ hd ∈ c, ∃ r rest, hd = .and (.simple r :: rest) ∧ r ∈ parts ∧ ∀ n ∈ parts, n ∈ leaves hd :=
+  accept_needs c parts h
 
 -- ------------------------------------------------------------------ the tree construction is right (induction on the expression)
 /-- **Every nesting of ONEOF/AND/ANDOR, every kind of parent list** (supertype head, AND, ANDOR, OR — with and without
